@@ -548,3 +548,21 @@ package eio
 //@   ensures started == 1 [C14.srv.watchdog.started]
 //@   ensures result != nil && cap(result.pongChan) >= 1 [C14.srv.pong.mailbox.buffered]
 //@   ensures result.pingInterval == pingInterval && result.pingTimeout == pingTimeout && result.id == id && result.transport == transport [C14.srv.socket.fields]
+
+// C14 (client): the ping mailbox can hold one token (a ping that arrives while the watchdog is between two waits
+// re-arms it instead of being dropped by the non-blocking put).
+//@ func dial
+//@   opt safety off
+//@   modifies *
+//@   callsite (*Callbacks).setMissing skip
+//@   callsite newHTTPClient skip
+//@   callsite NewRequestHeader skip
+//@   callsite Parse skip
+//@   callsite NewNoopDebugger skip
+//@   callsite WithContext skip
+//@   callsite (*clientSocket).connect skip
+//@   ghost mailbox int = 0
+//@   onstore pingChan
+//@     requires cap(value) >= 1 [C14.cli.ping.mailbox.buffered]
+//@     update mailbox = mailbox + 1
+//@   ensures mailbox == 1 [C14.cli.ping.mailbox.made.once]
